@@ -500,6 +500,17 @@ class World:
                 col(e[s]._changed)
                 col(e[s]._last_gotten)
         col(st._last_changed_time)
+        if self.storage is not None and isinstance(self.storage, DictStorage):
+            import msgpack
+            for v in self.storage.rows.values():      # stamps that only survive in (possibly stale) rows
+                if isinstance(v, (bytes, bytearray)):
+                    try:
+                        d = msgpack.loads(v, use_list=False, raw=False)
+                        if isinstance(d, dict) and "side0" in d:
+                            col(d["side0"].get("changed"))
+                            col(d["side1"].get("changed"))
+                    except Exception:
+                        pass
         explicit = self.opts.get("explicit_time")
         now = self.clock.t
         if explicit:
